@@ -14,7 +14,7 @@ RULE = ('alignment cells = 9 driver shots (no/tail/head/cross/quartering wind, 6
         '(first 60 steps, and a window at 300 yd) x 8 range representatives (x_i-ulp, x_i, x_i+ulp, midpoint, x_{i+1}-c-ulp, x_{i+1}-c, '
         'x_{i+1}-c+ulp, centre of the gap when the advance exceeds the loop slack c) x steps {R, R/2, R/3, none, 0.5 ft, 0.7 ft}; unit cells: '
         'the step given as float in the preferred unit and as a quantity in ft/m/in/yd; scale cells = ranges 1 ft..2 mi x the same steps x time steps; '
-        'filter cells = every advance sequence over {0.75,1,1.25}u of length <= n x range steps {2u,2.5u,4u} through the real filter; '
+        'many-row cells = decimal ranges 700..2000 m|yd with steps 0.2..0.7 m|yd (thousands of rows: range / step is an integer only up to float rounding); filter cells = every advance sequence over {0.75,1,1.25}u of length <= n x range steps {2u,2.5u,4u} through the real filter; '
         'non-trivial = a fire whose precondition held (no range error, forward motion, step >= max integration step, step <= range)')
 ASSUMPTIONS = ['for a fixed shot the row set depends on (R, step) only through order relations between lattice points, multiples and R; one representative per order cell is explored',
                'row distance equals its multiple within 1e-9 relative', 'windows: first 60 steps and 40 (quick 10) steps at 300 yd']
@@ -273,7 +273,25 @@ def filt(cell):
     return {'v': out, 'n': n, 'nt': cell if n else None, 'traces': n, 'states': len(states), 'transitions': calls}
 
 
-PARTS = {'align': align, 'units': units, 'scale': scale, 'filter': filt}
+def manyrows(cell):
+    """range cards with thousands of rows (fine step over a long range, decimal numbers in metres / yards): the quotient range / step is then an
+    integer only up to float rounding, off by more than any absolute guard"""
+    import py_ballisticcalc as pb
+    from py_ballisticcalc import Unit
+    unit, R, st = cell
+    u = Unit[unit]
+    shot = make_shot(DRIVERS['nowind'])
+    calc = make_calc()
+    try:
+        rows = calc.fire(shot, u(R), u(st)).trajectory
+    except pb.RangeError:
+        return {'vac': True}
+    R_eff, s_eff = u(R) >> Unit.Foot, u(st) >> Unit.Foot
+    out = [{'msg': f'range {R} {unit} step {st} {unit} ({R_eff / s_eff!r} intervals): {m}', 'key': None} for m in check_rows(rows, R_eff, s_eff, 0.0, 0.0, DRIVERS['nowind'])]
+    return {'v': out[:3], 'n': 1, 'nt': cell, 'traces': 1, 'states': 1, 'transitions': 1, 'obs': [len(rows) > 5000]}
+
+
+PARTS = {'align': align, 'units': units, 'scale': scale, 'filter': filt, 'manyrows': manyrows}
 
 
 def plan(tier):
@@ -311,4 +329,6 @@ def plan(tier):
            for ts in (2.0 ** -13, 2.0 ** -11)]
     # short sequences below the prefix length
     fl += [[[a], rsm, 1, 0.0] for a in (0.75, 1.0, 1.25) for rsm in (2.0, 2.5, 4.0)]
-    return [('align', al), ('units', un), ('scale', sc), ('filter', fl)]
+    mr = [[unit, R, st] for unit in ('Meter', 'Yard') for R in ((700.0, 1000.0, 1234.5, 1466.2, 1500.3, 1999.9, 900.7) if tier == 'quick' else (700.0, 1000.0, 1234.5, 1466.2, 1500.3, 1999.9, 2000.0, 900.7))
+          for st in (0.2, 0.3, 0.7) + ((0.25, 0.9) if tier == 'thorough' else ())]
+    return [('align', al), ('units', un), ('scale', sc), ('filter', fl), ('manyrows', mr)]
